@@ -279,6 +279,36 @@ def run_impl(descr) -> Dict[str, Any]:
     return out
 
 
+def todao_state_db_scenario(n: int = 300) -> Dict[str, Any]:
+    """One explicitly created ToDAOState for many to_dao calls on short-lived objects, every DAO added to one Session and
+    committed; reloaded in a new Session.  ToDAOState.keep_alive must pin every converted object, otherwise a later object can get
+    the id() of a dead one and is handed the dead one's DAO: fewer rows, wrong values."""
+    from sqlalchemy import select
+    from sqlalchemy.orm import Session
+    from krrood.ormatic.dao import to_dao, ToDAOState
+    from krrood.ormatic.utils import create_engine
+    from test.dataset.example_classes import Position
+    read_schema()
+    itf = c04.interface()
+    engine = create_engine("sqlite:///:memory:")
+    try:
+        itf.Base.metadata.create_all(engine)
+        with Session(engine) as s1:
+            ts = ToDAOState()
+            for i in range(n):
+                p = Position(i, i, i)
+                s1.add(to_dao(p, ts))
+                del p
+            s1.commit()
+        with Session(engine) as s2:
+            rows = s2.scalars(select(itf.PositionDAO).order_by(itf.PositionDAO.database_id)).all()
+            xs = [r.from_dao().x for r in rows]
+    finally:
+        engine.dispose()
+    ok = xs == [float(i) for i in range(n)] or xs == list(range(n))
+    return {"ok": ok, "objects": n, "rows": len(xs), "first_wrong": next((i for i, x in enumerate(xs) if x != i), None)}
+
+
 def explain(descr) -> str:
     res = run_impl(descr)
     return json.dumps({"impl": res.get("exc") or res.get("py_iso") or "isomorphic", "chain_disagree": res.get("chain_disagree"),
@@ -729,6 +759,20 @@ def run(tier: str, seed: int, replay=None) -> int:
     origin: List[str] = []
     corpus_models: List[Any] = []
     nmodels, per_model = 0, 0
+    if replay is None or (isinstance(replay.get("case"), dict) and replay["case"].get("scenario") == "todao_state_db"):
+        try:
+            obs = todao_state_db_scenario()
+        except Exception as e:  # noqa
+            obs = {"ok": False, "exc": f"{type(e).__name__}: {str(e)[:200]}"}
+        rep.count("todao_state_db", True)
+        rep.extra["todao_state_db"] = obs
+        if not obs["ok"]:
+            rep.violation({"kind": "counterexample", "case": {"scenario": "todao_state_db"}, "impl": obs,
+                           "spec": "300 short-lived Position(i,i,i) converted with ONE ToDAOState, added to one Session and committed: 300 rows, "
+                                   "row i reloads with x = i",
+                           "python": "from harness import c05; print(c05.todao_state_db_scenario())"})
+        if replay is not None:
+            return rep.finish()
     replay_model = replay is not None and "class_model" in replay
     if replay_model:
         pass      # a case over a generated class model: re-run by a worker that re-installs the stored model
